@@ -121,6 +121,15 @@ func Load(repoDir string, overlay map[string][]byte, patterns []string, tags str
 			env.exts[fn] = ext
 		}
 	}
+	// C kernels from the cgo preambles of the current sources
+	if tmp, terr := os.MkdirTemp("", "gosym-ck"); terr == nil {
+		ck, cerr := loadCKernels(tmp, []string{repoDir + "/store/crc32.go", repoDir + "/store/leaf.go"})
+		os.RemoveAll(tmp)
+		if cerr != nil {
+			return nil, cerr
+		}
+		env.CKernels = ck
+	}
 	// boot: run shared package initialisers once
 	if err := env.boot(); err != nil {
 		return nil, err
@@ -183,7 +192,7 @@ func (e *Env) newInterp(s *smt.Solver, prefix []Decision) *interpreter {
 		runtimeErrorString: e.rtErrStr,
 		maxSteps:           400_000_000,
 		funcs:              map[*ssa.Function]struct{}{},
-		summaries:          map[string]bool{},
+		summaries:          map[string]string{},
 		natives:            map[string]value{},
 	}
 	for _, g := range e.repoGlobs {
